@@ -178,6 +178,21 @@ theorem C06_datagram_decode (e : Enc) (h : e.WF) (fuel depth : Nat) (hw : e.widt
   simp only [hdec, bind, Except.bind]
   exact hread
 
+/-- the OID part of the value statement without the domain restriction of `InDomain` -/
+def C06_oid_statement : Prop :=
+  ∀ (c : Bytes) (o : Oid), Spec.readOid c = some o → oidDecode c = .ok o
+
+/-- It does not hold: x690 splits the first sub-identifier with `// 40`, `% 40` whatever its size;
+    the content `78 01` (2.40.1) is decoded to 3.0.1.  Known finding of the dependency
+    (C06-x690-oid-second-arc), replayed on the implementation by the suite `second-arc`; the proved
+    part is `C06_value_decode` under `InDomain` (first content octet below 120). -/
+theorem C06_oid_counterexample : ¬ C06_oid_statement := by
+  intro h
+  have h1 := h [120, 1] [2, 40, 1] (by decide)
+  have h2 : oidDecode [120, 1] = .ok [3, 0, 1] := by rfl
+  rw [h2] at h1
+  cases h1
+
 /-- Re-encoding a decoded primitive value (`bytes(obj)`: received content octets re-used, length
     re-encoded by `encode_length`) is read by the specification reader as the same tag and
     content — the same value, possibly in another length form. -/
